@@ -42,13 +42,14 @@ def gen_workload(rng, profile="c06"):
     pmark = rng.choice([0.0, 0.0, 0.1, 0.25])
     pcopy = rng.choice([0.0, 0.1, 0.2, 0.35]) if profile != "c04" else rng.choice([0.0, 0.15, 0.3])
     padopt = rng.choice([0.0, 0.0, 0.15, 0.3])
+    ptwice = rng.choice([0.0, 0.0, 0.1, 0.3])
     if profile == "c07":
         pfail, pdep = rng.choice([0.2, 0.35, 0.5]), rng.choice([0.4, 0.6, 0.8])
     jobs = []
     for j in range(n):
         # (a job whose process was left running by an earlier run is never copied: the marker of the copy
         #  would appear in the directory that process is expected to fill)
-        plain = [i for i in range(j) if not jobs[i].get("adopt")]
+        plain = [i for i in range(j) if not jobs[i].get("adopt") and not jobs[i].get("over")]
         if j > 0 and plain and rng.random() < pcopy:
             cands = [i for i in plain if jobs[i]["code"] != 0] * 3 + plain
             i = rng.choice(cands)
@@ -58,6 +59,8 @@ def gen_workload(rng, profile="c06"):
         else:
             embed, used = [], set()
             for k in range(j):
+                if jobs[k].get("over"):
+                    continue          # (its submission may be refused: nothing can be built on it)
                 if rng.random() < pdep and len(embed) < 3:
                     # "direct" and "falsy" each fill one parameter of the task: at most once per job
                     hows = [h for h in EMBED if h not in used]
@@ -77,6 +80,11 @@ def gen_workload(rng, profile="c06"):
         for t, tot in enumerate(tokens):
             if rng.random() < 0.6:
                 toks.append([t, rng.randint(1, tot)])
+        # sometimes a second request on a token the job already asks for (the sum may exceed the total)
+        if toks and rng.random() < ptwice:
+            t, c = rng.choice(toks)
+            toks.append([t, rng.randint(1, tokens[t])])
+        spec["over"] = oversubscribed(tokens, toks)
         # the marker belongs to the job directory (identifier): once there, later submissions see it
         ident = spec["copy_of"] if spec.get("copy_of") is not None else j
         marker = rng.random() < pmark or any(x["marker"] for i, x in enumerate(jobs)
@@ -93,7 +101,34 @@ def gen_workload(rng, profile="c06"):
                 pwait=rng.choice([0.0, 0.05, 0.15]))
 
 
+def oversubscribed(tokens, toks):
+    """the job asks some token for more than the token can ever give (summing its requests)"""
+    tot = {}
+    for t, c in toks:
+        tot[t] = tot.get(t, 0) + c
+    return any(v > tokens[t] for t, v in tot.items())
+
+
 # ------------------------------------------------------------------------------ oracles
+def oracle_rest(w, trace, report, pid="C06"):
+    """the run comes to rest: the controller always finds the scheduler quiescent with nothing pending
+    after finitely many deliveries (bound: maxsteps controller actions, normal runs need < 150)"""
+    if trace.get("ended") != "maxsteps":
+        return
+    sn = last_snap(trace)
+    stuck = [j for j, o in enumerate(sn["jobs"]) if o is not None and o["registered"] and o["result"] is None]
+    twice = [j for j in stuck if oversubscribed(w["tokens"], w["jobs"][j]["toks"]) and sn["jobs"][j]["launches"] == 0]
+    starts = sum(1 for s in trace["steps"] if s["act"][0] == "deliver" and any(op == "lockin" for (_, op) in s["act"][1]))
+    if twice:
+        report(f"{pid}:livelock:same-token-twice",
+               f"job {twice[0]} asks token(s) {w['jobs'][twice[0]]['toks']} (totals {w['tokens']}): every request fits, their sum "
+               f"does not; {starts} start attempts in {len(trace['steps'])} controller steps, never launched, the run never comes to rest")
+    else:
+        report(f"{pid}:livelock:run-does-not-come-to-rest",
+               f"{len(trace['steps'])} controller steps ({starts} start attempts) without reaching a state at rest; jobs without result: {stuck}")
+
+
+
 def resolve(trace, k):
     """the job whose coroutine stands for submission k (k itself unless submit() returned another job)"""
     seen = 0
@@ -405,6 +440,11 @@ def g_action(a):
 def renderable(w, trace):
     if trace.get("error"):
         return False
+    # two dependencies of one job on one token: the result of a notification depends on the order in
+    # which the token's *set* of dependents is iterated (not recorded, the model uses index order)
+    for j, spec in enumerate(w["jobs"]):
+        if trace["deps"][j] is not None and len({t for t, _ in spec["toks"]}) < len(spec["toks"]):
+            return False
     for j, d in enumerate(trace["deps"]):
         if d is not None and any(x[0] == "other" or (x[0] == "job" and x[1] < 0) for x in d):
             return False
@@ -431,7 +471,8 @@ def g_case(w, trace, fx):
                     f"j_marker := {gbool(spec['marker'])}; j_ident := {ids[j]}%nat; j_adopt := {g_adopt(spec.get('adopt'))} |}}")
     W = f"{{| w_jobs := {glist(jobs)}; w_tokens := {glist(str(t) + '%nat' for t in w['tokens'])} |}}"
     F = f"{{| fx2 := {gbool(fx[0])}; fx3 := {gbool(fx[1])}; fx4 := {gbool(fx[2])} |}}"
-    tr = glist(f"({g_action(s['act'])}, {g_snap(s['snap'])})" for s in trace["steps"])
+    # (a refused submission changes nothing in the scheduler: it is not a step of the model)
+    tr = glist(f"({g_action(s['act'])}, {g_snap(s['snap'])})" for s in trace["steps"] if s["act"][0] != "refused")
     return f"{{| c_w := {W}; c_fx := {F}; c_trace := {tr} |}}"
 
 
@@ -519,6 +560,10 @@ def run_sched_check(c, profile, oracles, n_quick, n_thorough, golden_name, rule,
             c.count("exit:" + ("0" if spec["code"] == 0 else "nonzero"))
             if spec["marker"]:
                 c.count("marker")
+            if spec.get("over"):
+                c.count("requests-exceed-token:" + ("refused" if str(j) in {str(k) for k in t.get("refused", {})} else "accepted"))
+            if len({tt for tt, _ in spec["toks"]}) < len(spec["toks"]):
+                c.count("two-requests-on-one-token")
             if spec.get("adopt"):
                 c.count("adopted-process:code=" + str(spec["adopt"]["code"]) + ":done=" + str(spec["adopt"]["done"]))
             if spec.get("copy_of") is not None:
